@@ -384,6 +384,13 @@ func executeHostile(t *testing.T, prop string, seed uint64, p *HostilePlan) *cor
 					return
 				}
 				pos += n
+				// whatever Write accepted without an error is either with the
+				// client or part of ONE record still being assembled: never more
+				// than the largest record the Conn lets through
+				if held := pos - len(sc.Out); held > 5+16384+2048 {
+					res.Fail(prop, "balloon", "Write holds back more than one maximum-size record", "%d bytes accepted from the backend and not forwarded (largest permitted record: %d)", held, 5+16384+2048)
+					return
+				}
 			}
 		}
 		if p.BackFirst {
